@@ -148,7 +148,9 @@ def _stream(ctx, data, plan, mode, validate, pseed, backend, bparam):
               "validate": validate, "pseed": pseed, "backend": backend, "bparam": bparam}
     sock = None
     feeder = None
-    if backend == "file":
+    if backend == "serial":
+        stream = doubles.SerialLikeStream(data, plan, rng=random.Random(pseed), budget=2 * budget)
+    elif backend == "file":
         cls = doubles.SeekableRecordingStream if pseed % 3 == 0 else doubles.RecordingStream
         stream = cls(data, plan, rng=random.Random(pseed), budget=2 * budget,
                      rtype=bytearray if bparam.get("rtype") == "bytearray" else None)
@@ -225,7 +227,7 @@ def _stream(ctx, data, plan, mode, validate, pseed, backend, bparam):
                     return
                 if backend in ("pipe", "makefile"):
                     break
-                done = stream.exhausted if backend == "file" else (sock._vpos >= len(data) and not sock._sched[sock._si:])
+                done = stream.exhausted if backend in ("file", "serial") else (sock._vpos >= len(data) and not sock._sched[sock._si:])
                 if done or rounds > len(plan) + len(bparam.get("sizes", ())) + 4:
                     break
         else:
@@ -248,7 +250,7 @@ def _stream(ctx, data, plan, mode, validate, pseed, backend, bparam):
                 if raw is None and parsed is None:
                     if backend in ("pipe", "makefile"):
                         break
-                    done = stream.exhausted if backend == "file" else (
+                    done = stream.exhausted if backend in ("file", "serial") else (
                         sock._vpos >= len(data) and not sock._sched[sock._si:])
                     idle += 1
                     if done or idle > len(plan) + len(bparam.get("sizes", ())) + 4:
@@ -450,6 +452,7 @@ def run(ctx):
         _plain_stream(ctx, run_ + good, it % 2, 1, "bytesio", "long-error-run")
         ctx.hit("long_error_runs")
     # (d) hostile finite streams with faults
+    long_structures(ctx, rng)
     for i in range(ctx.n(5000, 120000)):
         data, _ = c01.make_stream(rng, small=rng.random() < 0.5)
         if rng.random() < 0.25:  # CRC-valid frames with nonsensical content
@@ -481,12 +484,52 @@ def run(ctx):
                      "labelmsm": rng.choice((1, 2, 0))})
         elif i % 16 == 5:
             _stream(ctx, data, {}, mode, validate, 0, rng.choice(("pipe", "makefile")), {"labelmsm": 1})
+        elif i % 16 == 9:
+            _stream(ctx, data, {}, mode, validate, 0, "serial", {"labelmsm": 1})
         else:
             ncalls = max(1, c01.count_calls(data))
             plan = {rng.randrange(ncalls): rng.choice(("short", "short", "empty", "eof", "partial"))
                     for _ in range(rng.choice((0, 1, 2, 4, 8)))}
             _stream(ctx, data, plan, mode, validate, rng.getrandbits(16), "file", {"labelmsm": rng.choice((1, 2, 0)),
                                                                                 "rtype": rng.choice(("bytes", "bytes", "bytearray"))})
+
+
+def long_structures(ctx, rng):
+    """Inputs that are long in one dimension (one reader, one segment, one run): depth- and counter-type limits."""
+    from vf import refchunk
+
+    w = ctx.worker % 4
+    if w == 0 or not ctx.quick:
+        # ~1500 well-formed chunks of one or two bytes arriving in ONE receive (bufsize far above the default)
+        inner = b"".join(streams.rand_frame(rng, "unknown")[0] for _ in range(40))[:2600]
+        bodies, i = [], 0
+        while i < len(inner):
+            k = rng.choice((1, 1, 2))
+            bodies.append(inner[i:i + k])
+            i += k
+        wire, _ = refchunk.encode(bodies, False, True, None, 0)
+        for bufsize in (65536, 16384):
+            _stream(ctx, wire, {}, rng.choice((0, 1)), 1, 0, "socket", {"sizes": [], "bufsize": bufsize, "encoding": 1})
+        ctx.hit("long:many_chunks_in_one_segment")
+    if w == 1 or not ctx.quick:
+        # several hundred DISTINCT station-type messages through one reader
+        frames = []
+        for i in range(400):
+            ident = ("1005", "1006", "1007", "1008", "1033", "1230")[i % 6]
+            frames.append(refcrc.frame(streams.rand_defined_payload(rng, ident)))
+        _stream(ctx, b"".join(frames), {}, rng.choice((0, 1)), 1, 0, "file", {})
+        ctx.hit("long:many_distinct_station_messages")
+    if w == 2 or not ctx.quick:
+        # > 2000 complete NMEA / UBX items in a row, then a frame
+        mid = b"".join(streams.nmea(rng, 16) if rng.random() < 0.6 else streams.ubx(rng, 10) for _ in range(2400))
+        _stream(ctx, mid + streams.rand_frame(rng, "defined")[0], {}, rng.choice((0, 1, 2)), 1, 0, "file", {})
+        ctx.hit("long:foreign_runs")
+    if w == 3 or not ctx.quick:
+        # 70 000 frames of ONE message number through one reader (16-bit counters of anything)
+        fr = [refcrc.frame(bytes([0xFF, 0xE0, i & 0xFF, (i >> 8) & 0xFF])) for i in range(256)]
+        data = b"".join(fr[i % 256] for i in range(70000))
+        _plain_stream(ctx, data, rng.choice((0, 1)), 1, "bytesio", "70000-frames-of-one-number")
+        ctx.hit("long:many_frames_of_one_number")
 
 
 def replay(ctx, p):
